@@ -28,6 +28,12 @@ def run(ctx, rep):
     r3 = rep.rule("own-lines", "the track parses its own lines only", floor=1)
     check_track_sections(ctx, r3, "instrument")
     check_dispatcher(ctx, r3)
+    rss = rep.rule("safe-skip", "no line of a section can abort the parse through an internal error: trying a kind on any line only "
+                                "succeeds or raises RegexNotMatchError (otherwise one section's content decides whether another's track exists)",
+                   floor=20)
+    from .partial import check_partial_scope
+    from .dispatch import PARSE
+    check_partial_scope(ctx, rss, [PARSE])
     r4 = rep.rule("pure-builder", "nothing reachable from InstrumentTrack.from_chart_lines writes state that outlives the call", floor=10)
     check_pure_reachable(ctx, r4, ["chartparse.instrument.InstrumentTrack.from_chart_lines"])
     r6 = rep.rule("ctor", "each Chart owns the map from_file filled for it (no shared default)", floor=1)
